@@ -73,8 +73,10 @@ let handle line =
     let md = if order_ok then process_edges true (sorted ord) else None in
     let zres = List.map (fun (u, v, w) -> ((z_of_int u, z_of_int v), Fin (z_of_int w))) res in
     let spec = out_ok zinput zres in
-    let din = if ne = 0 then "empty" else diagram cap n v0 input in
-    let dg g = if ne = 0 then "empty" else diagram cap n v0 g in
+    (* D < 0: the complexes are too large for the dense pairing oracle; diagrams are skipped (the plug-in then compares
+       the connected components at every threshold instead) *)
+    let dg g = if ne = 0 then "empty" else if cap < 0 then "skipped" else diagram cap n v0 g in
+    let din = dg input in
     let dout = dg res in
     let dms = (match ms with
         | Some l when l <> zres -> let d = dg (graph_of_out l) in if d = din then "=" else d
